@@ -63,11 +63,12 @@ bool RequestImpl::add(const char* request) {
       pos = 0;
       while ((pos=m_request.find('%', pos)) != string::npos && pos+2 <= m_request.length()) {
         unsigned int value1, value2;
-        if (sscanf("%1x%1x", m_request.c_str()+pos+1, &value1, &value2) < 2) {
+        if (sscanf(m_request.c_str()+pos+1, "%1x%1x", &value1, &value2) < 2) {
           break;
         }
         m_request[pos] = static_cast<char>(((value1&0x0f) << 4) | (value2&0x0f));
         m_request.erase(pos+1, 2);
+        pos++;  // continue behind the decoded character (which might be a percent sign)
       }
     } else if (pos+1 == m_request.length()) {
       m_request.resize(pos);  // reduce to complete lines
